@@ -61,10 +61,13 @@ def main(argv):
             pat = rest[0]
             for p in (cprog if cprog and pat.startswith("clvmr:") else prog).fns.values():
                 pp = pat[6:] if pat.startswith("clvmr:") else pat
-                if pp == p.path or (not pp.startswith("=") and pp in p.path) :
+                if (pp[1:] == p.path) if pp.startswith("=") else (pp in p.path):
                     print(p.dump())
                     print()
             return 0
+        if cmd == "selftest":
+            import selftest
+            return selftest.main(rest)
         if cmd.upper() in CHECKS:
             pid = cmd.upper()
             mod = importlib.import_module(pid.lower())
